@@ -32,12 +32,12 @@ META = {
         'C01.NO-MEMO - protect is not memoised by value equality (0.0 == -0.0); C01.COLORDER - the returned column '
         'list and the typedef lines iterate the same sequence; C01.STRWIDTH - type code, array length and string width of a column come from the same dtype level; C01.ZERO-ROW - the record arrays are filled in a way that also works for tables without rows; C01.CONT - the continuation-joining pattern of the reader consumes only the backslash, trailing blanks and the newline (nothing of the cells around it); C01.CASE - tables are registered and dispatched under '
         '.upper() keys; C01.INTCONV - integer cells are converted by int() directly on the token, floats by float(); '
-        'C01.PAIRS - pairs() is all keys minus tables(), tables() is all symbols minus {struct, enum}; C01.ENTRY - the '
+        'C01.PAIRS - pairs() is all keys minus tables(), tables() is all symbols minus {struct, enum}; C01.ENUM-LABELS - the labels of an enum typedef are taken as the text between the commas, or by a pattern that admits letters, digits and underscores; C01.ENTRY - the '
         'Table entry points reach the file only through write_ndarray_to_yanny / yanny.__init__ and pass table.meta. '
         'NOT decided: that str(value) -> float()/int() is lossless for every value, that get_token/trailing_comment '
         'invert protect for every string, zero-row behaviour, header text equality, enum round trip.'),
     'floors': {'C01.TYPEMAP': 4, 'C01.REFUSE': 2, 'C01.PROTECT-FLOW': 4, 'C01.PROTECT-PRED': 3, 'C01.COLORDER': 1,
-               'C01.CASE': 4, 'C01.INTCONV': 4, 'C01.PAIRS': 2, 'C01.ENTRY': 3, 'C01.NO-MEMO': 1, 'C01.STRWIDTH': 1, 'C01.CONT': 1, 'C01.ZERO-ROW': 1},
+               'C01.CASE': 4, 'C01.INTCONV': 4, 'C01.PAIRS': 2, 'C01.ENUM-LABELS': 1, 'C01.ENTRY': 3, 'C01.NO-MEMO': 1, 'C01.STRWIDTH': 1, 'C01.CONT': 1, 'C01.ZERO-ROW': 1},
 }
 
 CANON = {'f': 'f4', 'd': 'f8', 'f4': 'f4', 'f8': 'f8', 'i2': 'i2', 'i4': 'i4', 'i8': 'i8', 'h': 'i2', 'i': 'i4', 'l': 'i8', 'q': 'i8',
@@ -646,6 +646,49 @@ def check_intconv(ctx, yc):
     ctx.need(count >= 4, 'convert(): fewer than four int()/float() conversions found')
 
 
+def check_enum_labels(ctx, yc):
+    """C01.ENUM-LABELS: the labels of an enum typedef are what stands between the commas.  They are identifiers - letters, digits,
+    underscores - so a pattern that picks the labels out has to admit all three (a label such as EBOSS_DR16 cut at its first digit
+    makes the enum column too narrow, and the cells are truncated on the way back in)."""
+    f = yc.method('isenum')
+    fa = FA(f)
+    ctx.cover(f)
+    n = 0
+    for st in walk_local(f.node):
+        if not (isinstance(st, ast.Assign) and len(st.targets) == 1 and isinstance(st.targets[0], ast.Subscript) and '_enum_cache' in src(st.targets[0].value)):
+            continue
+        v = fa.deep(st.value) if isinstance(st.value, ast.Name) else st.value
+        calls = [c for c in ast.walk(v) if isinstance(c, ast.Call) and isinstance(c.func, ast.Attribute) and c.func.attr in ('findall', 'finditer', 'split')]
+        for c in calls:
+            pat = None
+            if dotted(c.func.value) == 're' and c.args and isinstance(c.args[0], ast.Constant) and isinstance(c.args[0].value, str):
+                pat = c.args[0].value
+            elif c.func.attr == 'split' and c.args and isinstance(c.args[0], ast.Constant) and isinstance(c.args[0].value, str) and dotted(c.func.value) != 're':
+                n += 1
+                ctx.check('C01.ENUM-LABELS', ',' in c.args[0].value and c.args[0].value.strip() == ',', f, c, 'enum labels: the text between the commas (`%s`)' % src(c)[:50],
+                          msg='isenum splits the label list at %r, not at the commas' % c.args[0].value, construct='enum label split')
+                continue
+            if pat is None:
+                continue
+            n += 1
+            if c.func.attr == 'split':
+                items = rx.normal(pat)
+                ok = bool(items) and rx.item_admits(items[0], ',') if items and items[0][0] in ('IN', 'LITERAL', 'CATEGORY') else (',' in pat)
+                ctx.check('C01.ENUM-LABELS', ok, f, c, 'enum labels: the text between the commas (re.split over %r)' % pat,
+                          msg='isenum splits the label list with %r, which does not split at a comma' % pat, construct='enum label split')
+            else:
+                cls = [it for it in rx.normal(pat) if it[0] in ('MAX_REPEAT', 'IN', 'CATEGORY')]
+                inner = None
+                if cls:
+                    inner = cls[0][3][0] if cls[0][0] == 'MAX_REPEAT' else cls[0]
+                ok = inner is not None and all(rx.item_admits(inner, ch) for ch in ('A', 'z', '0', '9', '_'))
+                ctx.check('C01.ENUM-LABELS', ok, f, c, 'enum labels: picked out by %r, which admits letters, digits and underscores' % pat,
+                          msg='isenum picks the enum labels out with %r, which does not admit every identifier character (letters, digits, underscore): a label '
+                              'such as EBOSS_DR16 is cut short, the enum column is sized too narrow and its cells are truncated when the file is read back' % pat,
+                          construct='enum label pattern %r' % pat)
+    ctx.need(n >= 1, 'isenum: the extraction of the enum labels was not found')
+
+
 def check_pairs(ctx, yc):
     f = yc.method('pairs')
     fa = FA(f)
@@ -733,4 +776,5 @@ def run(ctx):
     check_case(ctx, repo, yc)
     check_intconv(ctx, yc)
     check_pairs(ctx, yc)
+    check_enum_labels(ctx, yc)
     check_entry(ctx, repo)
